@@ -185,7 +185,8 @@ def decide_runs(A, B, select, label, **kw):
         try:
             bad, d = simenc.real_api_differs(A, B, select, info)
         except Exception as ex:
-            return "differs", dict(info, _replay_error=f"{type(ex).__name__}: {str(ex)[:100]}")
+            # the difference could not be re-run on the real API: not a confirmed counterexample
+            return "unreproduced", dict(info, _replay_error=f"{type(ex).__name__}: {str(ex)[:100]}")
         if not bad:
             return "unreproduced", info
         info = dict(info); info["_real_api_rel_dev"] = d
